@@ -85,6 +85,7 @@ type Rec struct {
 	Viols   []Viol              `json:"v,omitempty"`
 	Samples []interface{}       `json:"x,omitempty"`
 	Incon   []string            `json:"i,omitempty"`
+	perKey  map[string]int
 	journal *os.File
 	cur     string
 	beat    time.Time
@@ -148,8 +149,18 @@ func (r *Rec) Inconclusive(why string) {
 // Violation records a violation with a deterministic key.
 func (r *Rec) Violation(key, what string, witness interface{}) {
 	r.mu.Lock()
-	if len(r.Viols) < 200 {
+	// the cap is per key: many violations of one class (a known finding, say)
+	// must never crowd out a violation of another class in the same case
+	if r.perKey == nil {
+		r.perKey = map[string]int{}
+	}
+	r.perKey[key]++
+	switch n := r.perKey[key]; {
+	case n == 1:
 		r.Viols = append(r.Viols, Viol{Key: key, What: what, Phase: r.phase, Case: r.idx, Witness: witness})
+	case n <= 50 && len(r.Viols) < 5000:
+		// further occurrences are only counted
+		r.Viols = append(r.Viols, Viol{Key: key, What: what, Phase: r.phase, Case: r.idx})
 	}
 	r.mu.Unlock()
 }
